@@ -128,7 +128,9 @@ def run(tier, seed):
 
     # 1. the property on the complete reachable state graph of the bounded model (hist hidden by the VIEW)
     full_as = ascripts(2, FAILS, oks=("ok", "nosys", "zlen")) | {("zlen",), ("nosys",), ("zlen", "zlen")}
-    mc = consts(3 if q else 4, 0, range(0, 8), ascr=full_as, cbpos=3, erracts=("none", "disable", "free", "disfree"))
+    quick_as = ascripts(1, FAILS, oks=("ok", "nosys", "zlen")) | {("zlen",), ("nosys",)}
+    mc = consts(3 if q else 4, 0, range(0, 8), ascr=quick_as if q else full_as, cbpos=2 if q else 3,
+                erracts=("none", "disable", "free", "disfree"))
     cfg = vkit.write_cfg("C44_mc", mc, invariants=INVS, properties=PROPS, view="StateView")
     res = vkit.tlc("Listener", cfg, want_prints=False, coverage=True, workers=4)
     chk.add_tlc("C44_mc", res)
@@ -144,7 +146,7 @@ def run(tier, seed):
         # two calls from one callback invocation ending in free (accept callback and error callback), every creation
         # variant that matters for it: the socket must be closed iff CLOSE_ON_FREE and nothing may leak
         dict(name="C44_exh_free2", n=2,
-             consts=consts(2, 5, [2, 3, 6, 7, 3 + 32], acts={"connect", "loop", "seterr", "enable"}, ascr=((), ("emfile",), ("ok", "nomem")),
+             consts=consts(2, 5, [2, 3, 7, 3 + 32], acts={"connect", "loop", "seterr"}, ascr=((), ("emfile",), ("ok", "nomem")),
                            cbacts=FREE2 | {"free"}, cbpos=2, erracts=("none", "free", "disfree"))),
         # accept faults: every script position x every failure, error callback doing nothing / disable / free
         dict(name="C44_exh_faults", n=3,
@@ -159,7 +161,8 @@ def run(tier, seed):
                            acts=ACTS - {"seterr"}, ascr=((), ("nosys",)), cbacts={"free", "setfn2"}, cbpos=2)),
         # long random histories with everything at once
         dict(name="C44_rand", n=4, simulate=40 if q else 6000, depth=40,
-             consts=consts(4, 16 if q else 22, list(range(0, 8)) + [10, 19, 35, 39, 63], ascr=full_as, cbpos=3,
+             consts=consts(4, 16 if q else 22, list(range(0, 8)) + [10, 19, 35, 39, 63], ascr=quick_as if q else full_as,
+                           cbpos=2 if q else 3,
                            erracts=("none", "disable", "free", "disfree"))),
     ] + ([] if q else [
         # one step deeper for the two most common creation variants, and two-accept fault scripts
@@ -189,7 +192,7 @@ def run(tier, seed):
     need = ["connect", "loop", "enable", "disable", "setcb", "seterr", "free", "delivered", "errcb", "closed_seen",
             "incb:free", "incb:disable", "incb:setnull", "incb:setfn2", "inerrcb:free", "inerrcb:disable",
             "incb:disfree", "incb:nullfree", "incb:enfree", "incb:disenfree", "inerrcb:disfree",
-            "accept:zlen", "accept:nosys"] + ["accept:" + f for f in FAILS]
+            "accept:zlen", "accept:nosys"] + ["accept:" + f for f in (["again", "emfile", "nomem"] if q else FAILS)]
     missing = [o for o in need if hg.get(o, 0) == 0]
     if missing:
         raise vkit.InfraError("vacuous scenario corpus: never generated: %s" % missing)
